@@ -71,6 +71,15 @@ std::string gen_header(Src& s, int& lines)
 		if(i)
 			h += "\n";
 		h += pool[s.range(0, (i == 0 || i == lines - 1) ? 6 : 7)];	// blank lines only inside a multi-line header
+		// a line naming many columns with their units is long: up to a few thousand characters (the reader skips lines of up to 10000)
+		if(s.chance(0.08))
+		{
+			int len = (int) s.range(100, 4000);
+			std::string longline = "# ";
+			while((int) longline.size() < len)
+				longline += "column_" + std::to_string(longline.size()) + " [GeV^-1 cm^2]  ";
+			h += longline;
+		}
 	}
 	if(lines > 0 && h.empty())
 		h = "#";
